@@ -12,7 +12,7 @@ from vf import evidence as ev
 
 VERIF = os.path.dirname(os.path.dirname(os.path.abspath(__file__)))
 PY = sys.executable
-NJOBS = int(os.environ.get('VF_JOBS', '16'))
+NJOBS = int(os.environ.get('VF_JOBS', str(max(2, (os.cpu_count() or 4) - 2))))
 
 
 class Ob:
@@ -20,7 +20,7 @@ class Ob:
 
     def __init__(self, name, fn, parts=1, quick=None, thorough=None, canary=None,
                  canary_part=0, functions=(), bounds='', outside='', stubs=(),
-                 path_timeout=10.0, symbolic='', tiers=('quick', 'thorough'),
+                 path_timeout=30.0, symbolic='', tiers=('quick', 'thorough'),
                  twin_parts=None, canary_timeout=None):
         self.name = name
         self.fn = fn
@@ -152,7 +152,7 @@ def run_jobs(jobs, tier, seed, progress=True):
         shutil.rmtree(tmpdir, ignore_errors=True)
 
 
-def replay_call(harness, fn, part, call, canary='', timeout=600):
+def replay_call(harness, fn, part, call, canary='', timeout=90):
     cmd = [PY, '-m', 'vf.replay', '--harness', harness, '--fn', fn, '--part', part,
            '--call', call, '--canary', canary]
     env = dict(os.environ)
@@ -240,7 +240,9 @@ def check_property(pid, harness_path, tier, seed, only=None):
     # long jobs first
     order = {'main': 0, 'canary': 1, 'twin': 2}
     jobs.sort(key=lambda j: (order[j['mode']], -j['timeout']))
+    t_jobs = time.time()
     run_jobs(jobs, tier, seed)
+    print(f'  workers done in {time.time() - t_jobs:.0f}s', file=sys.stderr, flush=True)
 
     # 3. interpret -------------------------------------------------------------------
     ob_rows = []
@@ -269,7 +271,7 @@ def check_property(pid, harness_path, tier, seed, only=None):
                         {'result': 'unparsed'}
                     prow['cex'] = call or r.get('cex_message')
                     prow['replay'] = rr.get('result')
-                    if rr.get('result') in (False, 'exception'):
+                    if rr.get('result') in (False, 'exception', 'timeout'):
                         rp = write_replay(pid, o.name, dict(
                             harness=os.path.relpath(harness_path, VERIF), fn=o.fn,
                             part=j['part'], call=call), rr, r.get('cex_message'))
@@ -308,7 +310,7 @@ def check_property(pid, harness_path, tier, seed, only=None):
                     if call:
                         rr = replay_call(harness_path, o.fn, j['part'], call, canary=cname)
                         crow['replay_fails_on_broken_copy'] = \
-                            rr.get('result') in (False, 'exception')
+                            rr.get('result') in (False, 'exception', 'timeout')
                         if rr.get('result') is True:
                             notes.append(f"{o.name}: witness of canary '{cname}' does not "
                                          f"reproduce concretely on the broken copy")
